@@ -1,8 +1,7 @@
 (* Obligation C04/btrain_bits.  Statement as printed by Coq from Inferno.C04.ClosedForms; proof by reference.
    This file contains nothing else, so the statement cannot be weakened quietly. *)
 From Coq Require Import List ZArith Bool Arith Lia Reals Lra.
-From Flocq Require Import Core.Raux Core.Generic_fmt.
-From Inferno Require Import Base.Num Base.NumR Gen.Infra Gen.Interpolation C01.Ring C01.RingProofs C04.Synapse C04.HistProofs C04.ClosedForms C04.SelectProofs C04.SynapseProofs.
+From Inferno Require Import Base.Num Base.NumR Gen.Infra C01.Ring C04.Synapse C04.HistProofs C04.ClosedForms.
 Import ListNotations.
 Open Scope R_scope.
 Theorem btrain_bits : forall (p : pastR) (e : nat),
